@@ -316,6 +316,31 @@ def _short_array_chunks_and_macros():
     p.read()
 
 
+def _warn_only_values():
+    """Values outside the limits of the unit-dependent (warn-only) controllers: the library takes them with a
+    warning - a frequency assigned before its unit, a negative delay, a huge length."""
+    from rv.api import Synth, m
+
+    lfo = m.Lfo()
+    lfo.freq = 5000
+    lfo.frequency_unit = lfo.FrequencyUnit.hz
+    e = m.Echo()
+    e.delay = -16
+    e.delay_unit = list(type(e).delay_unit.value_type)[-1] if hasattr(type(e), "delay_unit") else 0
+    d = m.Delay()
+    d.delay_l, d.delay_r = -3, 99999
+    v = m.Vibrato()
+    v.freq = -1
+    lp = m.Loop()
+    lp.length = 10**6
+    for x in (lfo, e, d, v, lp):
+        try:
+            Synth(x).read()
+            x.clone()
+        except Exception:  # noqa: BLE001
+            pass
+
+
 def _surplus_and_missing_chunks():
     """Files as other SunVox versions write them: more CVAL/CMID records than the type declares
     controllers, fewer than it declares, unknown chunk ids, extra numbered CHNK entries."""
@@ -359,6 +384,7 @@ OPS = [
     _midi_bindings,
     _failed_saves,
     _short_array_chunks_and_macros,
+    _warn_only_values,
 ]
 
 # cheap ops that a check may run *inside* a case (between two observations of one object)
